@@ -246,11 +246,19 @@ class C02(Prop):
             "identity insertion, rename, tensor replacement with a permutation, plain access) generated from the observed structure, "
             "plus a malformed stream both sides must reject; non-trivial = at least two nodes and two accepted edit operations")
     clauses = [
-        ("F", "Node leg discipline: every leg operation keeps leg_permutation a permutation and moves exactly the documented leg (StoreProofs)"),
-        ("F", "plain access (lazy transposition) never changes the logical tensor of any node, and is idempotent"),
-        ("V", "full Inv/value preservation of contract/split on the store model is validated exactly against the code at every step "
-              "(structure, dict orders, leg permutations, shapes, diagrams) — the inductive proofs are per-operation and listed in the Props file"),
+        ("F", "store invariant wfb (one root, symmetric links, equal key sets, permutations, recorded shapes = raw tensor dims, edge-wire consistency, "
+              "no other sharing, acyclic) is preserved by access, contract (fresh/reused identifier), split (QR 3 modes / SVD / replacement, any admissible "
+              "leg specs and identifiers), insert_identity, rename, replace_tensor (with the inverse permutation), add_root/add_child, and by every sequence "
+              "(C02_step_preserves_wfb, C02_run_preserves_wf, C02_run_wfb_empty)"),
+        ("F", "diagram preservation: total atoms and the multiset of wire ends are unchanged by access/contract/rename/replace (split: plus the two fresh atoms and "
+              "the new bond twice, with the recorded definition = the split tensor transposed to out-legs ++ in-legs); open-leg rules: contract = first operand's "
+              "open legs then the second's, split = the legs named by each spec in spec order (C02_contract_*, C02_split_*)"),
+        ("F", "counterexamples proved by computation: an identifier in use by a third node, inadmissible leg specs, or a non-inverse permutation break the invariant "
+              "although the code accepts them (they are the stated preconditions; not generated)"),
+        ("F", "equal diagrams denote equal tensors over any commutative semiring; s_tensordot/s_transpose denote np.tensordot/np.transpose on entries (Wire/SemProofs.v, SemEntryProofs.v)"),
+        ("I", "per explored sequence: ops_okb (the theorems' preconditions) and wfb on every reachable state, by vm_compute"),
         ("O", "kernel factors (QR/SVD/explicit) are fresh atoms whose product over the new bond equals the input; validated numerically through the dense oracle"),
+        ("V", "model = code: exact step-by-step correspondence (structure, dict orders, leg permutations, shapes, every tensor against its diagram)"),
     ]
     trusted_base = ["NumPy transpose/tensordot/reshape implement the diagram operations (exercised exactly with integer-valued tensors)",
                     "LAPACK QR/SVD: factors contract back to the input (validated numerically at every split)"]
@@ -381,6 +389,29 @@ class C02(Prop):
             self._idmaps.append(idm)
             exprs.append(wmodel.coq_run_obs(ob["ops"], idm))
         vals = coq_eval(ctx, wmodel.IMPORTS, exprs, shard=12, scope="nat_scope", timeout=600)
+        # instance obligations: the hypotheses of the universal theorems (C02_run_wfb_empty,
+        # C02_step_preserves_wfb) hold for the explored sequence, and the executable invariant
+        # wfb is true on every state from the first add_root on
+        pre = []
+        for ob, idm in zip(obs, self._idmaps):
+            body = "[" + "; ".join("(" + wmodel.coq_op(o, idm) + ")" for o in ob["ops"]) + "]"
+            pre.append(f"(ops_okb empty_store {body}, run_wfb empty_store {body})")
+        pvals = coq_eval(ctx, wmodel.IMPORTS.replace("TTN.Canon", "TTN.Canon TTN.Inv TTN.InvRun"), pre, shard=25, scope="nat_scope", timeout=600)
+        self._inst = [0, 0, []]
+        for case, ob, pv in zip(cases, obs, pvals):
+            if isinstance(pv, BaseException):
+                self._inst[0] += 1
+                self._inst[2].append(f"seed {case['seed']}: cannot evaluate wfb: {pv}")
+                continue
+            okb, wl = pv
+            accepted = [st["ok"] for st in ob["steps"]]
+            self._inst[0] += 1
+            if not all(wl[1:]) if len(wl) > 1 else False:
+                self._inst[2].append(f"seed {case['seed']}: executable invariant wfb false on a reachable state {wl}")
+            elif not okb and all(accepted) and not case.get("malformed"):
+                self._inst[2].append(f"seed {case['seed']}: preconditions ops_okb of the preservation theorems not met by an accepted valid sequence")
+            else:
+                self._inst[1] += 1
         out = []
         for v, idm in zip(vals, self._idmaps):
             if isinstance(v, BaseException):
@@ -427,6 +458,10 @@ class C02(Prop):
                 if not st["ok"]:
                     return f"valid operation {op} rejected: {st['err']}"
         return None
+
+    def extra_obligations(self, ctx):
+        n, ok, fails = getattr(self, "_inst", [0, 0, []])
+        return n, ok, fails[:5]
 
     def sample_repr(self, case):
         return case
